@@ -44,8 +44,11 @@ def placements(fn, case, tier):
         deltas = sorted(set(list(range(-span, -span + 20)) + list(range(-20, 21)) + list(range(span - 19, span + 1)) + list(range(-span, span + 1, 5))))
     def aux_positions(a):
         n = sz[a]
-        ps = [None, 0, D // 2, D - n]
-        return ps
+        # inside the output region, and STRADDLING its start / end (an input partly overwritten by the first / last write)
+        if tier == 'thorough':
+            return [None] + list(range(-n + 1, D))       # every position that intersects the output region
+        ps = [None, 0, D // 2, D - n, -(n // 2), D - n // 2, 1 - n, D - 1]
+        return [None] + sorted(set(p for p in ps[1:] if -n < p < D))
     for delta in deltas:
         if tuple(sorted((dest, src))) in excluded and inter(BASE, S, BASE + delta, D):
             continue
@@ -121,6 +124,8 @@ def special_jobs(tier):
         jobs.append(('stepg', g))
     jobs.append(('keyexpand', None))
     jobs.append(('der', None))
+    for f in ('derTUINTEnc', 'derTBITEnc', 'derTPSTREnc', 'derTUINTDec', 'derTUINTDec2', 'derTBITDec', 'derTBITDec2', 'derTOCTDec', 'derTOCTDec2', 'derTPSTRDec'):
+        jobs.append(('der2', f))
     return jobs
 
 def _bundle_run(L, A, pre, st, key_addr, kl):
@@ -246,12 +251,90 @@ def special(job):
             val = cat_belt.data(ln, 3)
             with vf.Arena(L) as A:
                 o = A.buf(ln + 8, 0); cnt = L.sz('derEnc', o, 0x04, A.buf(val) if ln else A.buf(1), ln); want = o.get(cnt)
-            for off in range(-6, 8):
+            for off in range(-(ln + 8), ln + 9):
                 with vf.Arena(L) as A:
-                    a = A.buf(ln + 64, 0); a.set(val, 16 + off)
-                    c2 = L.sz('derEnc', a.addr + 16, 0x04, a.addr + 16 + off, ln); n += 1
-                    if c2 != cnt or a.get(cnt, 16) != want:
+                    B0 = ln + 16
+                    a = A.buf(3 * ln + 64, 0); a.set(val, B0 + off)
+                    c2 = L.sz('derEnc', a.addr + B0, 0x04, a.addr + B0 + off, ln); n += 1
+                    if c2 != cnt or a.get(cnt, B0) != want:
                         return n, ({'fn': 'derEnc', 'len': ln, 'val_minus_der': off}, 'derEnc with overlapping der/val differs from the disjoint result')
+        return n, None
+    if kind == 'der2':
+        # typed DER helpers whose headers allow val to overlap der: T{UINT,BIT,PSTR}Enc, T{UINT,BIT,OCT,PSTR}Dec(2)
+        def vals(ln):
+            return [cat_belt.data(ln, 3), b'\xff' * ln, bytes([1] * (ln - 1) + [0x80]) if ln else b'', bytes(ln - 1) + b'\x01' if ln else b'']
+        def enc_disjoint(A, f, tag, v, arg):
+            o = A.buf(len(v) + 16, 0)
+            c = L.sz(f, o, tag, A.buf(v) if v else A.buf(1), *arg)
+            return c, (o.get(c) if c != vf.SIZE_MAX else None)
+        for f, tag, lens in (('derTUINTEnc', 0x02, (1, 2, 5, 17, 33, 127, 128)), ('derTBITEnc', 0x03, (1, 2, 5, 17, 33, 127)), ('derTPSTREnc', 0x13, (1, 2, 5, 17, 33, 127))):
+            if not L.has(f) or f != arg: continue
+            for ln in lens:
+                for v in vals(ln):
+                    if f == 'derTUINTEnc':
+                        arg = (ln,); raw = v
+                    elif f == 'derTBITEnc':
+                        arg = (8 * ln - 3,); raw = v
+                    else:
+                        raw = bytes((x % 26) + 65 for x in v) + b'\0'; arg = ()
+                    with vf.Arena(L) as A:
+                        cnt, want = enc_disjoint(A, f, tag, raw, arg)
+                    if cnt == vf.SIZE_MAX:
+                        continue
+                    for off in range(-(len(raw) + 8), len(raw) + 9):
+                        with vf.Arena(L) as A:
+                            B0 = len(raw) + 16
+                            a = A.buf(3 * len(raw) + 64, 0); a.set(raw, B0 + off)
+                            c2 = L.sz(f, a.addr + B0, tag, a.addr + B0 + off, *arg); n += 1
+                            if c2 != cnt or a.get(cnt, B0) != want:
+                                return n, ({'fn': f, 'len': ln, 'val_minus_der': off, 'val': raw.hex()}, '%s with overlapping der/val differs from the disjoint result' % f)
+        # decoders: val may overlap der
+        for f, enc, tag, lens in (('derTUINTDec', 'derTUINTEnc', 0x02, (1, 2, 5, 17, 33, 127, 128)), ('derTUINTDec2', 'derTUINTEnc', 0x02, (1, 5, 33, 128)),
+                                  ('derTBITDec', 'derTBITEnc', 0x03, (1, 2, 5, 17, 33, 127)), ('derTBITDec2', 'derTBITEnc', 0x03, (1, 5, 33)),
+                                  ('derTOCTDec', 'derEnc', 0x04, (0, 1, 5, 17, 33, 127, 128)), ('derTOCTDec2', 'derEnc', 0x04, (1, 5, 33, 128)),
+                                  ('derTPSTRDec', 'derTPSTREnc', 0x13, (1, 2, 5, 17, 33))):
+            if not (L.has(f) and L.has(enc)) or f != arg: continue
+            for ln in lens:
+                for v in vals(ln)[:3]:
+                    bits = 8 * ln - 3
+                    if enc == 'derTUINTEnc':
+                        v = v[:-1] + bytes([v[-1] | 1]) if ln else v      # exact length for Dec2: top octet non-zero
+                        raw = v; earg = (ln,); outn = ln
+                    elif enc == 'derTBITEnc':
+                        raw = v; earg = (bits,); outn = ln
+                    elif enc == 'derEnc':
+                        raw = v; earg = (ln,); outn = ln
+                    else:
+                        raw = bytes((x % 26) + 65 for x in v) + b'\0'; earg = (); outn = ln + 1
+                    with vf.Arena(L) as A:
+                        cnt, code = enc_disjoint(A, enc, tag, raw, earg)
+                    if cnt == vf.SIZE_MAX:
+                        continue
+                    two = f.endswith('2')
+                    def call(valaddr, deraddr, lenbuf):
+                        if two:
+                            return L.sz(f, valaddr, deraddr, cnt, tag, bits if enc == 'derTBITEnc' else ln)
+                        return L.sz(f, valaddr, lenbuf, deraddr, cnt, tag)
+                    with vf.Arena(L) as A:
+                        o = A.buf(outn + 8, 0xEE); d = A.buf(code); lb = A.buf(8, 0)
+                        r0 = call(o.addr, d.addr, lb); want = (r0, o.get(outn), lb.get())
+                    for off in range(-(outn + 8), cnt + 9):
+                        with vf.Arena(L) as A:
+                            B0 = outn + 16
+                            a = A.buf(B0 + cnt + outn + 32, 0xEE); a.set(code, B0); lb = A.buf(8, 0)
+                            r = call(a.addr + B0 + off, a.addr + B0, lb); n += 1
+                            got = (r, a.get(outn, B0 + off), lb.get())
+                            if got != want:
+                                return n, ({'fn': f, 'len': ln, 'val_minus_der': off, 'der': code.hex()}, '%s with val overlapping der: (ret, val, len) = %s, disjoint buffers give %s' % (f, (got[0], got[1].hex()[:40], got[2].hex()), (want[0], want[1].hex()[:40], want[2].hex())))
+                    if not two:
+                        # the len output may overlap der as well (val kept disjoint)
+                        for off in range(-7, cnt):
+                            with vf.Arena(L) as A:
+                                a = A.buf(cnt + 32, 0xEE); a.set(code, 8); o = A.buf(outn + 8, 0xEE)
+                                r = L.sz(f, o.addr, a.addr + 8 + off, a.addr + 8, cnt, tag); n += 1
+                                got = (r, o.get(outn), a.get(8, 8 + off))
+                                if got != want:
+                                    return n, ({'fn': f, 'len': ln, 'lenptr_minus_der': off, 'der': code.hex()}, '%s with the len output overlapping der: (ret, val, len) = %s, disjoint buffers give %s' % (f, (got[0], got[1].hex()[:40], got[2].hex()), (want[0], want[1].hex()[:40], want[2].hex())))
         return n, None
     return 0, None
 
